@@ -1,12 +1,11 @@
 import JominiModel.Props.C13
-open Jomini.Props.C13
-#print axioms C13_tables
-#print axioms C13_bin_roundtrip_date
-#print axioms C13_bin_roundtrip_datehour
-#print axioms C13_bin_roundtrip_needs_year_bound
-#print axioms C13_from_binary_reencode_datehour
-#print axioms C13_from_binary_reencode_date
-#print axioms C13_no_overflow_from_binary
-#print axioms C13_no_overflow_to_binary
-#print axioms C13_fast_digit_parse
-#print axioms C13_fastpaths_agree
+#print axioms Jomini.Props.C13.C13_tables
+#print axioms Jomini.Props.C13.C13_bin_roundtrip_date
+#print axioms Jomini.Props.C13.C13_bin_roundtrip_datehour
+#print axioms Jomini.Props.C13.C13_bin_roundtrip_needs_year_bound
+#print axioms Jomini.Props.C13.C13_from_binary_reencode_datehour
+#print axioms Jomini.Props.C13.C13_from_binary_reencode_date
+#print axioms Jomini.Props.C13.C13_no_overflow_from_binary
+#print axioms Jomini.Props.C13.C13_no_overflow_to_binary
+#print axioms Jomini.Props.C13.C13_fast_digit_parse
+#print axioms Jomini.Props.C13.C13_fastpaths_agree
